@@ -17,14 +17,14 @@ LEVEL_TEXT = {
     'C20': ("PARTIAL. Machine-checked over a site table regenerated from the current headers (every std::move / std::forward applied to a reference parameter of a "
             "library function reachable from binding.h): no l-value handed in by a caller is turned into an r-value that initialises a library object (the only move "
             "out of a forwarding reference ends in a const-reference constructor parameter), and the library stores decayed copies of callables, constants and "
-            "bound connect arguments. The extraction is a static analysis written for this task; a run-time grid of entry points x argument kinds (all l-values) "
+            "bound connect arguments. The extraction is a static analysis written for this task; a run-time grid of entry points x argument kinds (all l-values, incl. evaluators with earlier removals) "
             "searches for a concrete altered argument.", '6/C20'),
     'C18': ("PARTIAL by nature. Machine-checked over tables regenerated from the current headers: get_arity has exactly one overload for each of the 24 cv/ref/"
             "noexcept member-function qualifications (arguments + 1), for plain and noexcept function pointers and for generic callables; bind_first passes the "
-            "callable, the bound values BY VALUE and placeholders _1.._k with k = arity - |bound|; hence (std::bind per the standard) the callable receives the "
+            "callable, the bound values BY VALUE and placeholders _1.._k with k = arity - |bound|, and consists of nothing but that one return statement; hence (std::bind per the standard) the callable receives the "
             "bound values followed by exactly the first k emitted values, in order - the formula the signal model uses; copy operations of Signal, Property, "
             "Binding, ScopedConnection are deleted and the R-value-reference static_assert is intact. Acceptance/rejection by the C++ type system is validated on a "
-            "grid: 44 run-time cells (shapes x arities x bound counts x signal arities, bound l-values modified after connect) and 16 must-fail cells with "
+            "grid: 56 run-time cells (shapes x arities x bound counts x signal arities, class-type bound values over several emissions, bound l-values modified after connect) and 16 must-fail cells with "
             "compiling twins.", '6/C18'),
     'C14': ("Machine-checked over tables REGENERATED from the current headers on every run (clang JSON AST): each of the 152 operator overloads applies, inside "
             "its lambda, the operator it is declared for to its operands in source order, hands them to makeNode in source order, and declares as result type "
